@@ -136,7 +136,7 @@ impl Monitor for C02 {
         let mut rng = Rng::from_parts(&parts);
         let profile = *rng.pick(&[
             Profile::Gc, Profile::Gc, Profile::Gc, Profile::Gc, Profile::Idle, Profile::Idle, Profile::Dense,
-            Profile::Delete, Profile::Mixed, Profile::BigName, Profile::Align, Profile::Huge,
+            Profile::Delete, Profile::Mixed, Profile::BigName, Profile::Align, Profile::Align, Profile::Align, Profile::Huge,
         ]);
         let policy = if rng.chance(2, 3) { Policy::AlwaysFlush } else { Policy::AlwaysFsync };
         let nq = rng.usize(1, 4);
